@@ -38,14 +38,19 @@ def jobs(tier, seed):
 def make_problem(rng):
     d = int(rng.choice([1, 1, 2, 2, 3, 4]))
     n = int(rng.choice([2, 3, 5, 8, 13, 20, 30, 40]))
-    x = G.random_points(rng, n, d)
+    spec = G.fix_axes(G.random_spec(rng), rng, d)
+    far = bool(rng.random() < 0.12) and G.count_cp_kernels(spec) == 0   # training inputs far from the origin (time-stamps ...)
+    x = G.random_points(rng, n, d, far=far)
     y_scale = 10.0 ** rng.uniform(-2, 2)
     span = np.where(np.ptp(x, axis=0) > 0, np.ptp(x, axis=0), 1.0)
     w = rng.normal(size=d) / span
     y = y_scale * (np.sin(3 * (x - x.mean(0)) @ w) + 0.3 * rng.normal(size=n)) + y_scale * rng.normal() * rng.choice([0, 1, 30])
-    spec = G.fix_axes(G.random_spec(rng), rng, d)
     theta_c = G.random_theta(spec, rng, x, y_scale)
     mean_name = str(rng.choice(G.MEANS))
+    if far:
+        # a linear / quadratic trend about the centroid of inputs near 1e7 carries the rounding of the centroid itself (eps*abs(x)/extent relative):
+        # that is arithmetic, not the library; the far case is about the covariance path
+        mean_name = "Constant"
     theta_m = G.random_mean_theta(mean_name, rng, x, y_scale)
     noise = str(rng.choice(["none", "y_err", "y_err", "y_cov"]))
     if noise == "none":
@@ -60,7 +65,7 @@ def make_problem(rng):
         S = B @ B.T + np.diag((y_scale * 10.0 ** rng.uniform(-3, -0.5, size=n)) ** 2)
         S = 0.5 * (S + S.T)
     return dict(d=d, n=n, x=x, y=y, spec=spec, theta_c=theta_c, mean=mean_name, theta_m=theta_m,
-                noise=noise, S=S, err=err, y_scale=y_scale)
+                noise=noise, S=S, err=err, y_scale=y_scale, far=far)
 
 
 def build_regressor(p, rng, form=None, perm=None, noise_as=None):
